@@ -124,7 +124,8 @@ def exec_read(c):
             f.write(data)
     kw = dict(sort_nodes=(o["mode"] == 0), reset_index=(o["mode"] == 1), encoding=enc)
     if o["nex"]:
-        kw["extra_cols"] = ["e"]
+        # the requested extra columns are "an iterable of names": a list, a tuple, a dict view, or something that can be walked only once
+        kw["extra_cols"] = [lambda: ["e"], lambda: ("e",), lambda: iter(["e"]), lambda: (k for k in ["e"]), lambda: {"e": 0}.keys(), lambda: map(str, ["e"])][lib.vid(c) % 6]()
     try:
         with warnings.catch_warnings(record=True) as ws:
             warnings.simplefilter("always")
@@ -132,7 +133,15 @@ def exec_read(c):
                 df, comments = read_swc(src, **kw)
                 rows = rows_of_df(df, o["nex"])
             else:
-                t = Tree.from_swc(src, **kw)
+                if o["src"] == 2 and lib.vid(c) % 3 == 0:
+                    # the lazy read of a population over the directory that holds just this file (errors may come at construction or on access)
+                    from swcgeom.core import Population
+                    pop = Population.from_swc(os.path.dirname(src), **kw)
+                    if len(pop) != 1:
+                        raise ValueError("population lists %d files" % len(pop))
+                    t = pop[0]
+                else:
+                    t = Tree.from_swc(src, **kw)
                 rows, comments = rows_of_tree(t), t.comments
     finally:
         if o["src"] == 2 and os.path.exists(src):
@@ -335,7 +344,8 @@ def exec_line_events(c):
     src = LogStream(text, events)
     kw = dict(sort_nodes=(o["mode"] == 0), reset_index=(o["mode"] == 1))
     if o["nex"]:
-        kw["extra_cols"] = ["e"]
+        # the requested extra columns are "an iterable of names": a list, a tuple, a dict view, or something that can be walked only once
+        kw["extra_cols"] = [lambda: ["e"], lambda: ("e",), lambda: iter(["e"]), lambda: (k for k in ["e"]), lambda: {"e": 0}.keys(), lambda: map(str, ["e"])][lib.vid(c) % 6]()
     try:
         with warnings.catch_warnings():
             warnings.simplefilter("ignore")
